@@ -12,13 +12,22 @@
    be confused with Fine.fhead of PropertyFine.v, which is the code BEFORE
    fix-F-C11a and is the refuted variant there.
 
-   Bridge: Failsafe.v has no correspondence suite of its own.  For ehead, estep
-   ignores which entry point was used (estep_head_base holds by reflexivity per
-   constructor), so the theorems below are a definitional lift of Property.v
-   along forget; that the four Go entry points really end in the same
-   setNextVersion is checked by the suites hist / routing / fine, whose updates
-   are driven through the real entry points (harness entry.go) and recorded as
-   Update / UpdBegin. *)
+   Bridge (Extension 3): suite "failsafe" (Failsafe.run_failsafe, harness
+   entry.go coqFailsafe).  Every history of suite hist in which at least one
+   update went through a REAL entry point is also written as a case_failsafe:
+   the entry points are distinct operations (Via RevertToDiagnosisFree d now,
+   ...), evaluated by estep, and compared after every action on: object handed
+   out / version anchored (look-ups), currentVersion, whether the CURRENT
+   PoliciesData carries diagnosisFreeReverted (the stand-in flag, read back
+   from the object the code built), retained objects with their flags.
+   C11_accepted_failsafe_case_is_a_run: what the suite accepts is a run of
+   erun ehead, so C11_pinned_across_failsafe / C11_retention_across_failsafe
+   speak about the accepted cases (C11_accepted_failsafe_case_pinned /
+   _retains restate them over the observations of an accepted case).  Split
+   updates: the commit of an update that came through an entry point is its
+   Via (the instant it reaches setNextVersion), its begin / failure a Refused,
+   exactly Model.flat.  The suites hist / routing / fine keep recording the
+   entry points as Update / UpdBegin (forget). *)
 From Coq Require Import List ZArith Bool Lia Sorted.
 From Verif Require Import C11.Model C11.Proofs C11.Failsafe.
 Import ListNotations.
@@ -164,3 +173,82 @@ Proof.
   exact (IH _ E2 Fh).
 Qed.
 Print Assumptions C11_standin_variant_same_without_diagnosis_free.
+
+(* ================================================================== *)
+(* suite "failsafe": what run_failsafe accepts                          *)
+
+(* An accepted case IS a run of the entry-point model at HEAD: the observations
+   the implementation showed after every action (object handed out, version
+   anchored, currentVersion, stand-in flag of the current PoliciesData, retained
+   objects with their flags) are those of erun ehead on the executed actions,
+   entry points as distinct operations. *)
+Theorem C11_accepted_failsafe_case_is_a_run : forall d0 evs,
+  run_failsafe (d0, evs) = None ->
+  map fs_obs evs = erun ehead (einit d0) (map fs_act evs).
+Proof. intros d0 evs H. exact (echeck_is_run ehead evs O (einit d0) H). Qed.
+Print Assumptions C11_accepted_failsafe_case_is_a_run.
+
+(* conversely every run is accepted (the comparison rejects nothing the model
+   can do: acceptance = being a run) *)
+Theorem C11_failsafe_runs_are_accepted : forall d0 h,
+  run_failsafe (d0, map (fun ao => FS (fst ao) (snd ao)) (combine h (erun ehead (einit d0) h))) = None.
+Proof. intros d0 h. exact (run_is_accepted ehead h O (einit d0)). Qed.
+Print Assumptions C11_failsafe_runs_are_accepted.
+
+(* C11_pinned_across_failsafe read off an accepted case: the case contains a
+   look-up of txn at t0 (observation o1) and a later one at t <= t0 + ttl
+   (observation o2), any entry points before and between: the implementation
+   handed out the same object under the same version both times, the object
+   built by the last entry point that got through before t0. *)
+Theorem C11_accepted_failsafe_case_pinned : forall d0 epre txn t0 o1 emid t o2,
+  run_failsafe (d0, epre ++ FS (EA (Get txn t0)) o1 :: emid ++ [FS (EA (Get txn t)) o2]) = None ->
+  let pre := map fs_act epre in
+  let mid := map fs_act emid in
+  monotone (map forget (pre ++ EA (Get txn t0) :: mid ++ [EA (Get txn t)])) ->
+  lookup txn (pins (ebase (eafter ehead (einit d0) pre))) = None ->
+  t <= t0 + ttl ->
+  eo_got o2 = eo_got o1 /\ eo_ver o2 = eo_ver o1 /\
+  eo_got o1 = last_data d0 (map forget pre) /\
+  eo_ver o1 = cur (ebase (eafter ehead (einit d0) pre)).
+Proof. exact accepted_case_pinned. Qed.
+Print Assumptions C11_accepted_failsafe_case_pinned.
+
+(* C11_retention_across_failsafe read off an accepted case: after every action
+   of the window [t0, t0 + ttl] the object that was current at t0 is among the
+   retained objects the implementation showed *)
+Theorem C11_accepted_failsafe_case_retains : forall d0 epre txn t0 o1 emid a o,
+  run_failsafe (d0, epre ++ FS (EA (Get txn t0)) o1 :: emid ++ [FS a o]) = None ->
+  let pre := map fs_act epre in
+  let mid := map fs_act emid ++ [a] in
+  lookup txn (pins (ebase (eafter ehead (einit d0) pre))) = None ->
+  Forall (fun a => t0 <= time_of (forget a) <= t0 + ttl) mid ->
+  exists f, In (R (last_data d0 (map forget pre)) f) (eo_ret o).
+Proof. exact accepted_case_retains. Qed.
+Print Assumptions C11_accepted_failsafe_case_retains.
+
+(* a concrete accepted case (the shape entry.go writes): fail-safe activates
+   (object 1, flagged), transaction 7 first seen, lifted through
+   RevertToLastLoaded (object 2), response of 7 at exactly t0 + ttl after both
+   passes: still object 1 under version 2; the stand-in flag goes true, false *)
+Example C11_failsafe_suite_accepts :
+  run_failsafe (0, [
+    FS (Via RevertToDiagnosisFree 1 5) (EObs 0 0 2 true [R 0 false; R 1 true]);
+    FS (EA (Get 7 6)) (EObs 1 2 2 true [R 0 false; R 1 true]);
+    FS (Via RevertToLastLoaded 2 7) (EObs 0 0 3 false [R 0 false; R 1 true; R 2 false]);
+    FS (EA (VacTxn (6 + ttl))) (EObs 0 0 3 false [R 0 false; R 1 true; R 2 false]);
+    FS (EA (VacVer (6 + ttl))) (EObs 0 0 3 false [R 1 true; R 2 false]);
+    FS (EA (Get 7 (6 + ttl))) (EObs 1 2 3 false [R 1 true; R 2 false])]) = None.
+Proof. vm_compute. reflexivity. Qed.
+
+(* the suite tells the entry points apart: the same observations with the
+   fail-safe recorded as a plain reload are rejected at the first action (the
+   model says: no stand-in), and the behaviour of the variant standin_dropped
+   (seed C11-9) is rejected where the stand-in is superseded *)
+Example C11_failsafe_suite_rejects :
+  run_failsafe (0, [
+    FS (Via ReloadFromFile 1 5) (EObs 0 0 2 true [R 0 false; R 1 true])])
+  = Some (O, EObs 0 0 2 false [R 0 false; R 1 false]) /\
+  (let h := [Via RevertToDiagnosisFree 1 0; EA (Get 7 0); Via RevertToLastLoaded 2 0; EA (Get 7 0)] in
+   run_failsafe (0, map (fun ao => FS (fst ao) (snd ao)) (combine h (erun standin_dropped (einit 0) h)))
+   = Some (2%nat, EObs 0 0 3 false [R 0 false; R 1 true; R 2 false])).
+Proof. vm_compute. split; reflexivity. Qed.
